@@ -224,6 +224,38 @@ def pmap_chunks(fn: Callable[[Sequence[Any]], Any], items: Sequence[Any], chunk:
                 yield f.result()
 
 
+def pmap_dynamic(fn: Callable[[Any], Any], items: Sequence[Any], jobs: Optional[int] = None) -> Iterable[Any]:
+    """Like pmap_chunks(chunk=1), but a task may hand back further items (work splitting for searches whose subtrees are very uneven):
+    fn(item) -> (result, [more items]); yields the results (unordered) until no item is left."""
+    jobs = jobs or NPROC
+    if jobs <= 1:
+        todo = list(items)
+        while todo:
+            res, more = fn(todo.pop())
+            todo.extend(more)
+            yield res
+        return
+    import concurrent.futures as cf
+
+    ctx = mp.get_context("fork")
+    with cf.ProcessPoolExecutor(jobs, mp_context=ctx, initializer=_init_worker, initargs=(fn,)) as ex:
+        import queue
+
+        doneq: "queue.Queue" = queue.Queue()
+        outstanding = 0
+        for it in items:
+            ex.submit(_call, it).add_done_callback(doneq.put)
+            outstanding += 1
+        while outstanding:
+            f = doneq.get()
+            outstanding -= 1
+            res, more = f.result()
+            for it in more:
+                ex.submit(_call, it).add_done_callback(doneq.put)
+                outstanding += 1
+            yield res
+
+
 class Clock:
     def __init__(self):
         self.t0 = time.time()
